@@ -5,6 +5,9 @@ HERE = os.path.dirname(os.path.abspath(__file__))
 
 CHECKS = {
  # id: (level, technique, level text, level note)
+ "C15": ("exploration", "exhaustive sweep of the PDK device tables and logic-cell libraries plus Hypothesis-generated hierarchies and compile histories; oracle = before/after snapshot, documented-row validity predicate, closure checker and netlisters",
+         "Every row of every PDK device table (by model name), every type/family/threshold triple, size and multiplier variants, and every logic cell are compiled / instantiated; generated hierarchies with shared sub-modules are compiled once, twice, after an unrelated walk, and via hdl21.pdk.compile by default, name and module with several PDKs registered. Hierarchy, names and connection objects must be unchanged, unmapped targets untouched, mapped targets one of the documented rows with given sizes preserved, every device port connected, the result closed, exportable and netlistable, repeat compiles idempotent, unsatisfiable requests refused with a descriptive error.",
+         "A row is asserted only when readme and walker tables agree; PDK-derived sizes are recorded only; the open finding C15-K1 (port-count mismatched requests) is matched per (pdk, primitive, device)."),
  "C16": ("translation_validation", "property-based testing of flatten(): generated hierarchies validated against the reference interpreter's flat circuit (isomorphism), plus adversarial ':' names",
          "For generated hierarchies (leaves at every level, shared sub-modules, buses, pass-through ports, port-less sub-modules) flatten(m) must return only primitive / external instances, one per leaf device, with m's ports unchanged, and its package must be isomorphic to the reference interpreter's circuit of m; designs flatten may refuse (slices, concats, ':' in names) must raise or be right.",
          "Trusts the reference interpreter and package reader; sampled; the flatten-must-succeed class is decided from the elaborated hierarchy (all connections whole signals, no ':' in names)."),
